@@ -311,6 +311,84 @@ def path_to_leaf(node, lid, acc=()):
     return None
 
 
+def fits_w(w, size):
+    """No child hidden or clipped for lack of space: walk the urwid tree top-down with the sizes the
+    containers' own helper methods hand to their children (the precondition of the property)."""
+    import urwid
+    S = spy_classes()
+    maxcol = size[0]
+    if maxcol < 1 or (len(size) == 2 and size[1] < 1):
+        return False
+    if isinstance(w, S["SpyBase"]):
+        return maxcol >= w.minw and (len(size) == 2) == bool(w.box)
+    if isinstance(w, urwid.LineBox):
+        return fits_w(w._w, size)
+    if isinstance(w, urwid.AttrMap):
+        return fits_w(w.original_widget, size)
+    if isinstance(w, urwid.BoxAdapter):
+        return len(size) == 1 and w.height >= 1 and fits_w(w.original_widget, (maxcol, w.height))
+    if isinstance(w, urwid.Pile):
+        _, heights, args = w.get_rows_sizes(size, focus=True)
+        if not heights or any(h < 1 for h in heights) or (len(size) == 2 and sum(heights) > size[1]):
+            return False
+        return all(fits_w(c, a) for (c, _), a in zip(w.contents, args))
+    if isinstance(w, urwid.Columns):
+        widths, heights, args = w.get_column_sizes(size, focus=True)
+        n = len(w.contents)
+        if n == 0 or len(widths) != n or any(x < 1 for x in widths) or sum(widths) + w.dividechars * (n - 1) > maxcol:
+            return False
+        if any(h < 1 for h in heights):
+            return False
+        return all(fits_w(c, a) for (c, _), a in zip(w.contents, args))
+    if isinstance(w, urwid.Padding):
+        left, right = w.padding_values(size, True)
+        return left >= 0 and right >= 0 and fits_w(w.original_widget, (maxcol - left - right,) + tuple(size[1:]))
+    if isinstance(w, urwid.Filler):
+        maxrow = w.pack(size, True)[1]
+        top, bottom = w.filler_values(size, True)
+        if top < 0 or bottom < 0:
+            return False
+        if w.height_type == urwid.WHSettings.PACK:
+            return w.original_widget.rows((maxcol,), True) <= maxrow - top - bottom and fits_w(w.original_widget, (maxcol,))
+        return fits_w(w.original_widget, (maxcol, maxrow - top - bottom))
+    if isinstance(w, urwid.Frame):
+        if len(size) != 2:
+            return False
+        (ht, ft), (hr, fr) = w.frame_top_bottom(size, True)
+        if ht != hr or ft != fr or size[1] - ht - ft < 1:
+            return False
+        if w.header is not None and not (hr >= 1 and fits_w(w.header, (maxcol,))):
+            return False
+        if w.footer is not None and not (fr >= 1 and fits_w(w.footer, (maxcol,))):
+            return False
+        return fits_w(w.body, (maxcol, size[1] - ht - ft))
+    if isinstance(w, urwid.Overlay):
+        if len(size) != 2:
+            return False
+        left, right, top, bottom = w.calculate_padding_filler(size, True)
+        if min(left, right, top, bottom) < 0:
+            return False
+        tsz = w.top_w_size(size, left, right, top, bottom)
+        if len(tsz) == 1 and w.top_w.rows(tsz, True) > size[1] - top - bottom:
+            return False
+        return fits_w(w.top_w, tsz) and fits_w(w.bottom_w, size)
+    if isinstance(w, urwid.GridFlow):
+        return len(size) == 1 and maxcol >= w.cell_width and fits_w(w.get_display_widget(size), size)
+    if isinstance(w, urwid.ListBox):
+        if len(size) != 2:
+            return False
+        middle, top, bottom = w.calculate_visible(size, True)
+        if middle is None:
+            return False
+        total = sum(c.rows((maxcol,), True) for c in w.body)
+        return total <= size[1] and all(fits_w(c, (maxcol,)) for c in w.body)
+    if isinstance(w, (urwid.Divider, urwid.SolidFill, urwid.Text)):   # Text covers Edit, SelectableIcon
+        return True
+    if isinstance(w, urwid.WidgetWrap):                                 # Button, CheckBox
+        return fits_w(w._w, size)
+    return True
+
+
 def canvas_rows(canv):
     out = []
     for row in canv.content():
@@ -385,7 +463,10 @@ def observe(case, want_moves=True):
     for _, lid, sz, foc in rlog:
         rendered.setdefault(lid, []).append((sz, foc))
     leaves = []
-    fits = subj.ctx.wf
+    try:
+        fits = subj.ctx.wf and fits_w(subj.w, size)
+    except Exception as e:  # noqa: BLE001
+        fits = False
     for lid, w in sorted(subj.ctx.leaves.items()):
         calls = rendered.get(lid, [])
         if lid not in where or len(calls) != 1:
